@@ -2,6 +2,8 @@ import Tea.Driver.Util
 import Tea.Input.Reader
 import Tea.Gen.KeyTable
 import Tea.Time.Model
+import Tea.Render.Model
+import Tea.VT.Term
 
 open Tea Tea.Driver Tea.Input
 
@@ -42,6 +44,87 @@ def stepEvery (line : String) : String :=
     | _, _ => "bad-op"
   | _ => "bad-op"
 
+open Tea.Render in
+def parseROp (ws : List String) : Option ROp :=
+  match ws with
+  | ["size", w, h] => do some (.size (← w.toNat?) (← h.toNat?))
+  | ["w", h] => do some (.write (← parseHex h))
+  | ["f"] => some .flush
+  | ["rp"] => some .repaintMsg
+  | ["cs"] => some .clearScreen
+  | ["ea"] => some .enterAlt
+  | ["xa"] => some .exitAlt
+  | ["sc"] => some .showCursor
+  | ["hc"] => some .hideCursor
+  | ["mc"] => some .mouseCell
+  | ["dmc"] => some .noMouseCell
+  | ["ma"] => some .mouseAll
+  | ["dma"] => some .noMouseAll
+  | ["ms"] => some .mouseSGR
+  | ["dms"] => some .noMouseSGR
+  | ["bp"] => some .paste
+  | ["dbp"] => some .noPaste
+  | ["rf"] => some .focus
+  | ["drf"] => some .noFocus
+  | ["pl", h] => do some (.printLine (← parseHex h))
+  | ["st"] => some .stop
+  | ["ki"] => some .kill
+  | ["title", h] => do some (.title (← parseHex h))
+  | _ => none
+
+open Tea.Render Tea.VT in
+/-- `render`: `W H r0 | op | op ...` → per-op bytes (hex) joined by ` | `, then ` # ` state -/
+def stepRender (line : String) : String :=
+  match (line.splitOn " | ") with
+  | [] => "bad-op"
+  | _hdr :: opsS =>
+    match opsS.mapM (fun o => parseROp (words o)) with
+    | none => "bad-op"
+    | some ops =>
+      let (r, outs) := run {} ops
+      let per := outs.map (fun o => toHex (serializeAll o))
+      let st := s!"lines={r.linesRendered} altlines={r.altLinesRendered} hidden={r.cursorHidden} alt={r.altActive} bp={r.bpActive} focus={r.focusActive} w={r.width} h={r.height} queued={r.queued.length} cache={r.lastLines.isSome}"
+      " | ".intercalate per ++ " # " ++ st
+
+open Tea.VT in
+def rowText (b : Buf) (maxw r : Nat) : Bytes :=
+  let cells := (List.range maxw).map (fun c => b.cells r c)
+  (cells.reverse.dropWhile (· == 32)).reverse
+
+open Tea.VT in
+def bufDump (name : String) (b : Buf) (maxw : Nat) : String :=
+  let rows := (List.range b.used).map (rowText b maxw)
+  let rows := (rows.reverse.dropWhile (·.isEmpty)).reverse
+  s!" {name}:top={b.top} cur={b.cr},{b.cc} pw={b.pw} rows=" ++ String.join (rows.map (fun r => toHex r ++ ","))
+
+open Tea.VT in
+def termDump (t : Term) : String :=
+  s!"alt={t.onAlt} vis={t.cursorVis} m1002={t.m1002} m1003={t.m1003} m1006={t.m1006} m1004={t.m1004} m2004={t.m2004}" ++
+  bufDump "main" t.main t.maxw ++ bufDump "alt" t.alt t.maxw
+
+open Tea.Render Tea.VT in
+/-- `vt`: the same history lines as `render`; the model's operations are applied to the
+Lean terminal semantics and the final terminal state is printed -/
+def stepVT (line : String) : String :=
+  match (line.splitOn " | ") with
+  | [] => "bad-op"
+  | hdr :: opsS =>
+    match (words hdr).mapM (·.toNat?), opsS.mapM (fun o => parseROp (words o)) with
+    | some [w, h, r0], some ops =>
+      let t0 : Term := { w := w, h := h, maxw := w }
+      let initLine (i : Nat) : Bytes := (s!"init{i}".toUTF8.toList.map (·.toNat)).take w
+      let t1 := (List.range r0).foldl (fun t i => applyOps t [.text (initLine i), .cr, .lf]) t0
+      let rec go (r : RState) (t : Term) : List ROp → Term
+        | [] => t
+        | o :: os =>
+          let (r', out) := Tea.Render.step r o
+          let t := match o with
+            | .size w h => resize t w h
+            | _ => t
+          go r' (applyOps t out) os
+      termDump (go {} t1 ops)
+    | _, _ => "bad-op"
+
 partial def loop (h : IO.FS.Stream) (out : IO.FS.Stream) (f : String → String) : IO Unit := do
   let line ← h.getLine
   if line.isEmpty then return ()
@@ -56,4 +139,6 @@ def main (args : List String) : IO UInt32 := do
   | ["detect"] => loop stdin stdout stepDetect; return 0
   | ["reader"] => loop stdin stdout stepReader; return 0
   | ["every"] => loop stdin stdout stepEvery; return 0
+  | ["render"] => loop stdin stdout stepRender; return 0
+  | ["vt"] => loop stdin stdout stepVT; return 0
   | _ => IO.eprintln "usage: driver <stream>"; return 2
